@@ -632,6 +632,10 @@ async fn seal_checks(dir: &Path, payload_kind: u8, every_byte: bool) -> Result<u
     let p2: Vec<u8> = b"SECOND-VERSION-CONTENT-0123456789".to_vec();
     let snap: Vec<u8> = b"SNAPSHOT-CONTENT {\"uuid\":{\"description\":\"hidden\"}}".to_vec();
     let mut srv = cfg(b"secret").into_server().await.map_err(|e| mm(&sc, "opening the repository".into(), format!("{e}"), "opens".into()))?;
+    // the directory may be used for other things (docs of ServerConfig::Git): a file of the user's with task content in clear lies next
+    // to the backend's files; nothing of it may end up in what the backend stores (commits, and would push)
+    const FOREIGN: &[u8] = b"FOREIGN-FILE {\"description\":\"task content in a file that is not the backend's\"} 0123456789";
+    std::fs::write(repo.join("notes.txt"), FOREIGN).unwrap();
     let v1 = match srv.add_version(Uuid::nil(), p1.clone()).await {
         Ok((AddVersionResult::Ok(v), _)) => v,
         other => return bad("add_version #1", format!("{:?}", other.map(|x| x.0)), "accepted"),
@@ -691,6 +695,15 @@ async fn seal_checks(dir: &Path, payload_kind: u8, every_byte: bool) -> Result<u
     checks += 1;
     if let Some(l) = leak {
         return bad("files of the repository", format!("task content in clear in {l}"), "no task content appears in what is stored");
+    }
+    // ... and nothing committed contains the task content of the foreign file (git objects are compressed, so ask git)
+    checks += 1;
+    let revs = std::process::Command::new("git").arg("-C").arg(&repo).args(["rev-list", "--all"]).output().map(|o| String::from_utf8_lossy(&o.stdout).to_string()).unwrap_or_default();
+    for rev in revs.split_whitespace() {
+        let found = std::process::Command::new("git").arg("-C").arg(&repo).args(["grep", "-a", "-q", "-F", "FOREIGN-FILE {", rev]).output().map(|o| o.status.success()).unwrap_or(false);
+        if found {
+            return bad("commits of the repository", format!("the content of a file that is not the backend's (notes.txt, task content in clear) is part of commit {rev}"), "no task content appears in what is stored");
+        }
     }
     let sjson: serde_json::Value = serde_json::from_slice(&std::fs::read(&fs).unwrap_or_default()).unwrap_or(serde_json::Value::Null);
     let sp = sjson["payload"].as_str().and_then(b64dec);
